@@ -1,7 +1,7 @@
 """C18 - settings obey command line > environment > default; bad values are refused."""
 import os, json, re
 import vlib, realeng
-from vlib import hexs
+from vlib import hexs, unhex
 
 PROP = "C18"
 NUMS = [b"", b"0", b"1", b"2", b"7", b"32", b"-1", b"-3", b"+5", b" 7", b"7 ", b"7x", b"x", b"1e3", b"0x10", b"2147483647", b"2147483648",
@@ -240,6 +240,39 @@ def run(ctx):
                           observed="hang (25 s)" if rc == -999 else "exit %d, output %r" % (rc, got[:6]), engine="exec",
                           detail="pdsh -R exec -f %d on %d targets under a descriptor limit of %d %s" % (f, n, nofile, "hangs" if rc == -999 else "does not run the command everywhere"))
     dist["low_descriptor_limit_runs"] = nlow
+    # the remote program path in effect is the one that is SENT: the command handed to the transport by pdcp and by rpdcp
+    # starts with it (-e > PDSH_REMOTE_PDCP_PATH > pdcp's own path), whatever -q prints
+    try:
+        real.build_module(os.path.join(vlib.VERIF, "harness", "c09_recmod.c"), "reca", defs=['-DRECNAME="reca"'])
+        have_rec = True
+    except vlib.BuildError:
+        have_rec = False
+    nsent = 0
+    log = os.path.join(ctx.scratch, "sent18.log")
+    for prog in (("pdcp", "rpdcp") if have_rec and bad < 6 else ()):
+        for eopt, eenv in ((None, None), (b"/opt/e/pdcp", None), (None, b"/opt/env/pdcp"), (b"/opt/e/pdcp", b"/opt/env/pdcp")):
+            if os.path.exists(log):
+                os.unlink(log)
+            env = {"C09_LOG": log}
+            if eenv is not None:
+                env["PDSH_REMOTE_PDCP_PATH"] = eenv
+            args = ["-R", "reca"] + (["-e", eopt] if eopt is not None else []) + ["-w", "h1", "/etc/hostname", ctx.scratch if prog == "rpdcp" else os.path.join(ctx.scratch, "rx")]
+            rc, o, er = real.run(args, prog=prog, env=env, timeout=15)
+            nsent += 1
+            want = eopt if eopt is not None else eenv if eenv is not None else os.path.join(real.dir, "bin", prog).encode()
+            sent = None
+            if os.path.exists(log):
+                for ln in open(log).read().split("\n"):
+                    f = ln.split(" ")
+                    if len(f) >= 7 and f[0] == "REC":
+                        sent = unhex(f[5]) if f[5] != "-" else b""
+            if rc == -999 or sent is None or sent.split(b" ")[0] != want:
+                bad += 1
+                ctx.violation("input", case={"pcp": True, "prog": prog, "env": {"PDSH_REMOTE_PDCP_PATH": (eenv or b"").decode()}, "opts": [("e", (eopt or b"").decode())]},
+                              expected="the command sent to the target starts with %r" % want, observed="sent: %r" % (sent[:120] if sent is not None else None), engine="args",
+                              detail="%s: the remote program path in effect (-e > PDSH_REMOTE_PDCP_PATH > own path) is %r but the command handed to the transport is %r"
+                                     % (prog, want, sent[:80] if sent is not None else None))
+    dist["commands_sent_observed"] = nsent
     have_input = any(v["kind"] != "no-failing-input-found" for v in ctx.violations)
     vlib.report_proof_break(ctx, have_input)
     cov = vlib.proof_coverage(ctx, {
